@@ -17,7 +17,7 @@ TraceReset == /\ IsEvent("reset")
               /\ goodSeen' = FALSE
 
 TraceCall == IsEvent("call") /\ Call(Ev.r)
-TraceResp == IsEvent("resp") /\ Resp(Ev.k)
+TraceResp == IsEvent("resp") /\ Resp(Ev.k, Ev.amb)
 TraceRet  == IsEvent("ret")  /\ Ret(Ev.r, Ev.ok, Ev.match)
 
 TraceNext == TraceReset \/ TraceCall \/ TraceResp \/ TraceRet
